@@ -369,6 +369,39 @@ class StringInput:
         pass
 
 
+class HostInput:
+    """A host text stream (sys.stdin) behind the interface of StringInput."""
+
+    def __init__(self, stream):
+        self.stream = stream
+
+    def process(self, callback):
+        count = 0
+        line = self.readLine()
+        while line is not None:
+            callback(line)
+            count += 1
+            line = self.readLine()
+        return count
+
+    def read(self):
+        ch = self.stream.read(1)
+        return ch if ch else None
+
+    def readAll(self):
+        text = self.stream.read()
+        return text if text else None
+
+    def readLine(self):
+        line = self.stream.readline()
+        if not line:
+            return None
+        return line[:-1] if line.endswith("\n") else line
+
+    def close(self):
+        self.stream.close()
+
+
 class StringOutput:
     def __init__(
         self,
